@@ -473,9 +473,15 @@ fn show_env<'a>(it: impl Iterator<Item = (&'a String, &'a String)>) -> String {
 }
 
 fn run_impl(text: &str, env: &Env) -> String {
+    run_impl_cfg(text, env, false)
+}
+
+fn run_impl_cfg(text: &str, env: &Env, portable: bool) -> String {
     guarded(|| {
         let mut m: HashMap<String, String> = env.iter().map(|(a, b)| (a.clone(), b.clone())).collect();
-        match yash_arith::eval(text, &mut m) {
+        let mut config = yash_arith::Config::new();
+        config.portable = portable;
+        match yash_arith::eval_with_config(text, &mut m, config) {
             Ok(v) => format!("ok {} {}", v, show_env(m.iter())),
             Err(_) => "error".into(),
         }
@@ -557,6 +563,8 @@ fn shell_expectation(obs: &str, env: &Env) -> Option<String> {
 }
 
 struct Case {
+    /// evaluate with `Config { portable: true }`
+    portable: bool,
     line: String,
     text: String,
     env: Env,
@@ -582,14 +590,23 @@ fn make_case(text: String, env: &Env, tree: Option<&Ex>) -> Case {
         }
         l
     };
-    Case { line, text, env: env.clone(), tree: tree.cloned(), unicode_only }
+    Case { portable: false, line, text, env: env.clone(), tree: tree.cloned(), unicode_only }
+}
+
+/// the same case evaluated with the `portable` configuration
+fn make_portable(mut c: Case) -> Case {
+    if !c.unicode_only {
+        c.portable = true;
+        c.line = format!("P{}", &c.line[1..]);
+    }
+    c
 }
 
 fn parse_case(line: &str) -> Option<Case> {
     let w: Vec<&str> = line.split_whitespace().collect();
     match w.as_slice() {
-        ["U", t] => Some(Case { line: line.to_string(), text: dec_str(t)?, env: Env::new(), tree: None, unicode_only: true }),
-        ["E", e, t, tree @ ..] => {
+        ["U", t] => Some(Case { portable: false, line: line.to_string(), text: dec_str(t)?, env: Env::new(), tree: None, unicode_only: true }),
+        [k @ ("E" | "P"), e, t, tree @ ..] => {
             let mut env = Env::new();
             if *e != "-" {
                 for item in e.split(',') {
@@ -607,14 +624,41 @@ fn parse_case(line: &str) -> Option<Case> {
                 }
                 Some(t)
             };
-            Some(Case { line: line.to_string(), text: dec_str(t)?, env, tree, unicode_only: false })
+            Some(Case { portable: *k == "P", line: line.to_string(), text: dec_str(t)?, env, tree, unicode_only: false })
         }
         _ => None,
     }
 }
 
+fn has_incdec(e: &Ex) -> bool {
+    match e {
+        Num(..) | Var(_) => false,
+        Pre(op, a) => matches!(*op, "++" | "--") || has_incdec(a),
+        Post(..) => true,
+        Bin(_, a, b) => has_incdec(a) || has_incdec(b),
+        Cond(c, t, f) => has_incdec(c) || has_incdec(t) || has_incdec(f),
+    }
+}
+
 fn run_case(c: &Case, with_shell: bool) -> (String, String) {
-    let obs = run_impl(&c.text, &c.env);
+    let obs = run_impl_cfg(&c.text, &c.env, c.portable);
+    if c.portable && !c.unicode_only {
+        if obs.starts_with("PANIC") {
+            return (obs.clone(), format!("FAIL:{obs}"));
+        }
+        // the portable configuration rejects `++`/`--` wherever they stand and changes nothing else
+        let oracle = match &c.tree {
+            Some(t) if has_incdec(t) => {
+                if obs == "error" { "ok".to_string() } else { "FAIL:portable-accepted-incdec".to_string() }
+            }
+            Some(_) => {
+                let plain = run_impl(&c.text, &c.env);
+                if plain == obs { "ok".to_string() } else { format!("FAIL:portable-changed-the-result[{plain}]") }
+            }
+            None => "-".to_string(),
+        };
+        return (obs, oracle);
+    }
     if c.unicode_only {
         return if obs.starts_with("PANIC") { (obs.clone(), format!("FAIL:{obs}")) } else { ("total".into(), "ok".into()) };
     }
@@ -836,6 +880,7 @@ enum SV {
 #[derive(Clone, Debug)]
 struct Scen {
     nounset: bool,
+    portable: bool,
     globals: Vec<(String, SV)>,
     kind: String,
     locals: Vec<(String, SV)>,
@@ -880,7 +925,12 @@ fn dec_vars(t: &str) -> Option<Vec<(String, SV)>> {
 fn scen_line(sc: &Scen) -> String {
     format!(
         "S {} {} {} {} {}",
-        if sc.nounset { "u" } else { "-" },
+        match (sc.nounset, sc.portable) {
+            (false, false) => "-",
+            (true, false) => "u",
+            (false, true) => "p",
+            (true, true) => "up",
+        },
         enc_vars(&sc.globals),
         sc.kind,
         enc_vars(&sc.locals),
@@ -891,11 +941,12 @@ fn scen_line(sc: &Scen) -> String {
 fn parse_scen(line: &str) -> Option<Scen> {
     let w: Vec<&str> = line.split_whitespace().collect();
     let ["S", opts, g, kind, l, es] = w.as_slice() else { return None };
-    if !matches!(*kind, "top" | "fn" | "sub" | "fnsub" | "nest") || !matches!(*opts, "-" | "u") {
+    if !matches!(*kind, "top" | "fn" | "sub" | "fnsub" | "nest") || !(*opts == "-" || opts.chars().all(|c| c == 'u' || c == 'p')) {
         return None;
     }
     Some(Scen {
-        nounset: *opts == "u",
+        nounset: opts.contains('u'),
+        portable: opts.contains('p'),
         globals: dec_vars(g)?,
         kind: kind.to_string(),
         locals: dec_vars(l)?,
@@ -904,7 +955,46 @@ fn parse_scen(line: &str) -> Option<Scen> {
 }
 
 fn plain_word(s: &str) -> bool {
-    s.chars().all(|c| c.is_ascii_alphanumeric() || " +-_".contains(c))
+    s.chars().all(|c| c.is_ascii_alphanumeric() || " +-_()?:*~".contains(c))
+}
+
+/// the cause the shell names in its message for a failed arithmetic expansion (one word per `ErrorCause`
+/// that `convert_error_cause` can produce; the two token errors share one)
+fn error_cause(stderr: &str) -> String {
+    const TABLE: [(&str, &str); 17] = [
+        ("invalid numeric constant", "token"),
+        ("invalid character", "token"),
+        ("incomplete expression", "incomplete"),
+        ("expected an operator", "missingop"),
+        ("unmatched parenthesis", "paren"),
+        ("`?` without matching `:`", "question"),
+        ("`:` without matching `?`", "colon"),
+        ("invalid use of operator", "invalidop"),
+        ("operators are not portable", "portable"),
+        ("invalid variable value", "value"),
+        ("overflow", "overflow"),
+        ("division by zero", "divzero"),
+        ("left-shifting a negative integer", "lshiftneg"),
+        ("negative shift width", "revshift"),
+        ("assignment to a non-variable", "assignvalue"),
+        ("is not set", "unset"),
+        ("cannot assign to read-only variable", "readonly"),
+    ];
+    // the annotation under the offending part of the expression: `  |   ^^^ <cause>`
+    for l in stderr.lines() {
+        let Some(rest) = l.trim_start().strip_prefix('|') else { continue };
+        let Some(i) = rest.find('^') else { continue };
+        if rest[..i].chars().all(|c| " -|".contains(c)) {
+            let msg = rest[i..].trim_start_matches('^').trim();
+            for (pat, name) in TABLE {
+                if msg.contains(pat) {
+                    return name.to_string();
+                }
+            }
+            return format!("other({})", enc_str(msg));
+        }
+    }
+    "-".into()
 }
 
 /// the script of a scenario; None = not expressible (only hand-written replay lines can be)
@@ -913,6 +1003,7 @@ fn render_scen(sc: &Scen) -> Option<String> {
     if sc.nounset {
         out.push_str("set -u\n");
     }
+
     for (n, v) in &sc.globals {
         if !is_name(n) {
             return None;
@@ -938,10 +1029,14 @@ fn render_scen(sc: &Scen) -> Option<String> {
             _ => return None,
         }
     }
+    // the option is switched on where the expansions are: declarations such as `a=(1 2)` are not portable
     let mut body = String::new();
+    if sc.portable {
+        body.push_str("set -o portable\n");
+    }
     for (i, e) in sc.exprs.iter().enumerate() {
         // what may stand between `$((` and `))` without changing how the shell reads the script
-        let ok = e.chars().all(|c| c.is_ascii_alphanumeric() || " _+-*/%<>=!&|^~?:(){}$".contains(c));
+        let ok = e.chars().all(|c| c.is_ascii_alphanumeric() || " _+-*/%<>=!&|^~?:(){}$;".contains(c));
         let mut d = 0i32;
         for c in e.chars() {
             match c {
@@ -958,10 +1053,12 @@ fn render_scen(sc: &Scen) -> Option<String> {
         if !ok || d != 0 || !e.starts_with(' ') || !e.ends_with(' ') {
             return None;
         }
-        if i % 2 == 0 {
-            body.push_str(&format!("probe \"$(({e}))\"\n"));
-        } else {
-            body.push_str(&format!("probe $(({e}))\n"));
+        match i % 3 {
+            0 => body.push_str(&format!("probe \"$(({e}))\"\n")),
+            1 => body.push_str(&format!("probe $(({e}))\n")),
+            // a command made only of the expansion: its exit status is that of the last command
+            // substitution inside it; `probe` prints the status it is entered with
+            _ => body.push_str(&format!("T=$(({e}))\nprobe T \"$T\"\n")),
         }
     }
     let print: String = UNIVERSE.iter().map(|n| format!("probe \"${{{n}-U}}\"\n")).collect();
@@ -1005,7 +1102,18 @@ fn run_scen(sc: &Scen) -> String {
             return "TIMEOUT".into();
         }
         let out = o.stdout_str();
-        let mut lines: Vec<String> = out.lines().map(|l| l.split_once(':').map(|x| x.1).unwrap_or(l).to_string()).collect();
+        // `probe T "$T"` lines keep the exit status they were entered with: `<status>:<hex value>`
+        let mark = format!("{},", enc_str("T"));
+        let mut lines: Vec<String> = out
+            .lines()
+            .map(|l| {
+                let (st, rest) = l.split_once(':').unwrap_or(("", l));
+                match rest.strip_prefix(&mark) {
+                    Some(v) => format!("{st}:{v}"),
+                    None => rest.to_string(),
+                }
+            })
+            .collect();
         let done = lines.last().map(|l| l == &enc_str("DONE")).unwrap_or(false);
         if done {
             lines.pop();
@@ -1013,7 +1121,7 @@ fn run_scen(sc: &Scen) -> String {
         } else {
             lines.push("ERR".into());
         }
-        lines.join("|")
+        format!("{} E={}", lines.join("|"), error_cause(&o.stderr_str()))
     })
 }
 
@@ -1024,6 +1132,7 @@ fn scen_oracle(sc: &Scen, obs: &str) -> String {
     if obs.starts_with("PANIC") || obs == "TIMEOUT" {
         return format!("FAIL:{obs}");
     }
+    let obs = obs.rsplit_once(" E=").map(|x| x.0).unwrap_or(obs);
     let parts: Vec<&str> = obs.split('|').collect();
     let Some(last) = parts.last() else { return "-".into() };
     if !last.starts_with("END") {
@@ -1079,8 +1188,9 @@ fn random_scen(r: &mut Rng, sh: &[Shape]) -> Scen {
     if r.chance(1, 6) {
         globals.push(("a".to_string(), SV::A(vec!["1".into(), "2".into(), "3".into()])));
     }
-    if r.chance(1, 8) {
-        globals.push(("q".to_string(), SV::S(r.pick(&SVALUES).to_string())));
+    if r.chance(1, 6) {
+        let v = if r.chance(1, 2) { r.pick(&SVALUES).to_string() } else { r.pick(&["(", ")", "?", ":", "*", "~", "1 2", "1 ?", "1a"]).to_string() };
+        globals.push(("q".to_string(), SV::S(v)));
     }
     let kind = r.pick(&["top", "fn", "fn", "sub", "fnsub", "nest", "nest"]).to_string();
     let mut locals = vec![];
@@ -1133,10 +1243,34 @@ fn random_scen(r: &mut Rng, sh: &[Shape]) -> Scen {
                 toks[i] = if r.chance(1, 2) { format!("${}", toks[i]) } else { format!("${{{}}}", toks[i]) };
             }
         }
+        // command substitutions and nested arithmetic expansions in place of some numbers
+        for i in 0..toks.len() {
+            if toks[i].chars().all(|c| c.is_ascii_digit()) && r.chance(1, 6) {
+                toks[i] = match r.below(4) {
+                    0 => format!("$(echo {})", toks[i]),
+                    1 => format!("$(echo {}; st {})", toks[i], 1 + r.below(5)),
+                    _ => {
+                        let inner = if r.chance(1, 2) {
+                            Bin(BINARY[r.below(11)].0, b(var(r.pick(&UNIVERSE))), b(shell_tree(r, 1, &atoms, sh)))
+                        } else {
+                            shell_tree(r, 2, &atoms, sh)
+                        };
+                        let mut it = vec![];
+                        tokens(&inner, &mut it, 0, r);
+                        if r.chance(1, 3) {
+                            if let Some(k) = it.iter().position(|t| t.chars().all(|c| c.is_ascii_digit())) {
+                                it[k] = format!("$(echo {}; st {})", it[k], 1 + r.below(5));
+                            }
+                        }
+                        format!("$(( {} ))", join(&it, 1, r))
+                    }
+                };
+            }
+        }
         let style = r.below(2) as u8;
         exprs.push(format!(" {} ", join(&toks, style, r)));
     }
-    Scen { nounset: r.chance(1, 10), globals, kind, locals, exprs }
+    Scen { nounset: r.chance(1, 10), portable: r.chance(1, 8), globals, kind, locals, exprs }
 }
 
 fn shell_tree(r: &mut Rng, depth: usize, at: &[Ex], sh: &[Shape]) -> Ex {
@@ -1154,9 +1288,42 @@ fn shell_tree(r: &mut Rng, depth: usize, at: &[Ex], sh: &[Shape]) -> Ex {
 fn systematic_scens() -> Vec<Scen> {
     let forms = [
         " n += 1 ", " v = 3 ", " ++n ", " n-- ", " x = n = 2 ", " r = 1 ", " a += 1 ", " q ? n : (v = 2) ", " n = $b + b ",
-        " (n = 4) + (v = n) ", " b *= ${b} ", " n <<= 2 ",
+        " (n = 4) + (v = n) ", " b *= ${b} ", " n <<= 2 ", " $(echo 5; st 3) + 1 ", " $(( n = 5 )) + n ",
+        " $(( $(echo 2; st 4) * 2 )) + $(echo 1) ", " 0 && n++ ",
     ];
     let mut out = vec![];
+    // every syntax error of yash-arith, brought into the text by a parameter expansion (the script itself
+    // must stay well-formed), and every evaluation error, at top level and in a function
+    for qv in ["(", ")", "?", ":", "*", "~", "1 2", "1 ?", "08", "1a", "", "junk x", "-"] {
+        for f in [" $q ", " 1 $q 2 ", " $q 1 ", " 1 $q ", " 1 ? 2 $q 3 ", " (1 $q) ", " ${q}${q} ", " n = $q "] {
+            for kind in ["top", "fn"] {
+                out.push(Scen {
+                    nounset: false,
+                    portable: false,
+                    globals: vec![("q".to_string(), SV::S(qv.to_string())), ("n".to_string(), SV::S("1".into()))],
+                    kind: kind.to_string(),
+                    locals: vec![],
+                    exprs: vec![f.to_string()],
+                });
+            }
+        }
+    }
+    for f in [
+        " 1 / 0 ", " 1 % z ", " 9223372036854775807 + 1 ", " -9223372036854775807 - 2 ", " 1 << 64 ", " 1 << -1 ", " -1 << 1 ",
+        " 1 >> -1 ", " 4611686018427387904 * 2 ", " 1 = 2 ", " 1++ ", " (n + 1) *= 2 ", " b ", " b + 1 ", " -(-9223372036854775807 - 1) ",
+        " v++ ", " v *= 2 ",
+    ] {
+        for kind in ["top", "fn", "sub"] {
+            out.push(Scen {
+                nounset: false,
+                portable: false,
+                globals: vec![("b".to_string(), SV::S("junk!".replace('!', ""))), ("b".to_string(), SV::S("1x".into())), ("v".to_string(), SV::S("9223372036854775807".into()))].into_iter().skip(1).collect(),
+                kind: kind.to_string(),
+                locals: vec![],
+                exprs: vec![f.to_string()],
+            });
+        }
+    }
     for kind in ["top", "fn", "sub", "fnsub", "nest"] {
         for f in forms {
             for gset in 0..3 {
@@ -1181,11 +1348,18 @@ fn systematic_scens() -> Vec<Scen> {
                     ]
                 };
                 for locals in local_sets {
-                    for nounset in [false, true] {
-                        if nounset && gset != 1 {
+                    for (nounset, portable) in [(false, false), (true, false), (false, true)] {
+                        if (nounset || portable) && gset != 1 {
                             continue;
                         }
-                        out.push(Scen { nounset, globals: globals.clone(), kind: kind.to_string(), locals: locals.clone(), exprs: vec![f.to_string(), " n + v ".to_string()] });
+                        out.push(Scen {
+                            nounset,
+                            portable,
+                            globals: globals.clone(),
+                            kind: kind.to_string(),
+                            locals: locals.clone(),
+                            exprs: vec![f.to_string(), " n + v ".to_string(), f.to_string()],
+                        });
                     }
                 }
             }
@@ -1359,6 +1533,26 @@ fn main() {
         out.put(make_case(text, &env, Some(&t)));
     }
 
+    // 3b. the `portable` configuration (`++`/`--` rejected before evaluation, also in operands that would
+    //     not be evaluated; nothing else changes): every operator once on sampled operands, random trees
+    for s1 in &sh {
+        for _ in 0..if thorough { 40 } else { 4 } {
+            let kids = (0..arity(*s1)).map(|i| random_tree(&mut r, 1, &mild, &sh, wants_lvalue(*s1, i))).collect();
+            let t = build(*s1, kids);
+            let text = render(&t, 0, 1, &mut r);
+            out.put(make_portable(make_case(text, &env0, Some(&t))));
+        }
+    }
+    let np = if thorough { 150_000 } else { 2_500 };
+    for i in 0..np {
+        let pool = if i % 2 == 0 { &at } else { &mild };
+        let d = 1 + r.below(4);
+        let t = random_tree(&mut r, d, pool, &sh, false);
+        let style = r.below(3) as u8;
+        let text = render(&t, 10, style, &mut r);
+        out.put(make_portable(make_case(text, &env0, Some(&t))));
+    }
+
     // 4. variable values: every value of the pool read through a variable, alone and inside operators
     for v in VALUES {
         for text in ["x", " x ", "x+0", "x++", "--x", "x*=1", "-x", "x<<1", "x?x:x"] {
@@ -1404,6 +1598,9 @@ fn main() {
             _ => join(&toks, 2, &mut r),
         };
         let env = random_env(&mut r);
+        if r.chance(1, 6) {
+            out.put(make_portable(make_case(text.clone(), &env, None)));
+        }
         out.put(make_case(text, &env, None));
     }
     let nm = if thorough { 300_000 } else { 4_000 };
